@@ -363,18 +363,18 @@ Proof.
 Qed.
 
 Lemma valid3_snoc h e :
-  valid3 0%N (h ++ [e]) = valid3 0%N h ++ match parse3 0%N e with Some x => [x] | None => [] end.
+  valid3 [0%N] (h ++ [e]) = valid3 [0%N] h ++ match parse3 [0%N] e with Some x => [x] | None => [] end.
 Proof. unfold valid3. rewrite flat_map_app. cbn [flat_map]. rewrite app_nil_r. reflexivity. Qed.
 
 Lemma s_run_snoc h e : s_run (h ++ [e]) = s_sample (s_run h) e.
 Proof. unfold s_run. rewrite fold_left_app. reflexivity. Qed.
 
-Lemma big_run h : big_inv (valid3 0%N h) (s_run h) /\ s_errors (s_run h) = nerr3 0%N h.
+Lemma big_run h : big_inv (valid3 [0%N] h) (s_run h) /\ s_errors (s_run h) = nerr3 [0%N] h.
 Proof.
   induction h as [|e h [IH IE]] using rev_ind.
   - split; [exact big_inv_s0|reflexivity].
   - rewrite s_run_snoc, valid3_snoc. unfold nerr3. rewrite filter_app, app_length. cbn [filter].
-    unfold s_sample. destruct (parse3 0%N e) as [[[k sk] z]|].
+    unfold s_sample. destruct (parse3 [0%N] e) as [[[k sk] z]|].
     + split; [apply big_inv_step; exact IH|].
       cbn [length]. rewrite Nat.add_0_r.
       unfold s_sample_value. destruct (afind sk (s_idx (s_run h))).
@@ -395,7 +395,7 @@ Lemma subkey_inv_proof : forall h, sk_inv (s_run h).
 Proof.
   intros h. destruct (big_run h) as [(K & AI & IX & AM & KS & MT) _].
   unfold sk_inv. refine (conj K (conj AI (conj IX (conj AM _)))).
-  intros k c vec H. rewrite MT in H. destruct (mem k (firsts (valid3 0%N h))); [|discriminate].
+  intros k c vec H. rewrite MT in H. destruct (mem k (firsts (valid3 [0%N] h))); [|discriminate].
   unfold row in H. inversion H. split.
   - apply map_length.
   - symmetry. apply row_count.
@@ -406,9 +406,9 @@ Qed.
 (* ------------------------------------------------------------------ C07: equality with the specification *)
 Lemma spec_subkey_eq h :
   spec_subkey h =
-  let v := valid3 0%N h in
+  let v := valid3 [0%N] h in
   mkS (map (fun k => (k, row v (usort (seconds v)) k)) (usort (firsts v)))
-      (usort (seconds v)) (enum_from O (usort (seconds v))) (nerr3 0%N h).
+      (usort (seconds v)) (enum_from O (usort (seconds v))) (nerr3 [0%N] h).
 Proof. reflexivity. Qed.
 
 Lemma mem_usort k l : mem k (usort l) = mem k l.
@@ -423,7 +423,7 @@ Proof.
   intros h. rewrite spec_subkey_eq. cbv zeta.
   destruct (big_run h) as [(K & AI & IX & AM & KS & MT) ER].
   destruct (s_run h) as [m keys idx er]. cbn [s_keys s_idx s_matches s_errors] in *.
-  assert (EK : keys = usort (seconds (valid3 0%N h))).
+  assert (EK : keys = usort (seconds (valid3 [0%N] h))).
   { apply ksorted_ext; [exact K | apply usort_sorted|]. intros x. rewrite In_usort. apply KS. }
   rewrite <- EK. f_equal.
   - apply amap_ext; [exact AM| |].
@@ -442,14 +442,14 @@ Qed.
    key k and sub-key s; the count is the wrapped sum of all increments for k *)
 Lemma subkey_cell_proof : forall h k s i, nth_error (s_keys (s_run h)) i = Some s ->
   forall c vec, afind k (s_matches (s_run h)) = Some (c, vec) ->
-  nth i vec 0 = wrap64 (sum_ab k s (valid3 0%N h)) /\ c = wrap64 (sum_a k (valid3 0%N h)).
+  nth i vec 0 = wrap64 (sum_ab k s (valid3 [0%N] h)) /\ c = wrap64 (sum_a k (valid3 [0%N] h)).
 Proof.
   intros h k s i Hn c vec Hf.
   destruct (big_run h) as [(K & AI & IX & AM & KS & MT) _].
-  rewrite MT in Hf. destruct (mem k (firsts (valid3 0%N h))); [|discriminate].
+  rewrite MT in Hf. destruct (mem k (firsts (valid3 [0%N] h))); [|discriminate].
   unfold row in Hf. inversion Hf. split; [|reflexivity].
   apply nth_error_nth.
-  apply (map_nth_error (fun s0 => wrap64 (sum_ab k s0 (valid3 0%N h)))). exact Hn.
+  apply (map_nth_error (fun s0 => wrap64 (sum_ab k s0 (valid3 [0%N] h)))). exact Hn.
 Qed.
 
 (* ------------------------------------------------------------------ C07: order independence *)
@@ -466,15 +466,15 @@ Qed.
 Lemma spec_subkey_perm h1 h2 : Permutation h1 h2 -> spec_subkey h1 = spec_subkey h2.
 Proof.
   intros HP. rewrite !spec_subkey_eq. cbv zeta.
-  assert (PV : Permutation (valid3 0%N h1) (valid3 0%N h2)) by (apply Permutation_flat_map; exact HP).
-  set (v1 := valid3 0%N h1) in *. set (v2 := valid3 0%N h2) in *.
+  assert (PV : Permutation (valid3 [0%N] h1) (valid3 [0%N] h2)) by (apply Permutation_flat_map; exact HP).
+  set (v1 := valid3 [0%N] h1) in *. set (v2 := valid3 [0%N] h2) in *.
   assert (E1 : usort (firsts v1) = usort (firsts v2)) by (apply usort_perm, Permutation_map; exact PV).
   assert (E2 : usort (seconds v1) = usort (seconds v2)) by (apply usort_perm, Permutation_map; exact PV).
   assert (SA : forall k, sum_a k v1 = sum_a k v2).
   { intros k. unfold sum_a. apply zsum_perm, Permutation_map, Permutation_filter'. exact PV. }
   assert (SAB : forall k s, sum_ab k s v1 = sum_ab k s v2).
   { intros k s. unfold sum_ab. apply zsum_perm, Permutation_map, Permutation_filter'. exact PV. }
-  assert (EN : nerr3 0%N h1 = nerr3 0%N h2).
+  assert (EN : nerr3 [0%N] h1 = nerr3 [0%N] h2).
   { unfold nerr3. f_equal. apply Permutation_length, Permutation_filter'. exact HP. }
   rewrite E1, E2, EN. f_equal.
   apply map_ext. intros k. f_equal. unfold row. rewrite SA. f_equal.
